@@ -196,6 +196,35 @@ func facts(f *hc.Facts) {
 		})
 	}
 	f.Raw("def nextMsgSeqSites : List (String × String) := [" + strings.Join(sites, ", ") + "] -- (caller, argument) of every c.nextMsgSeq(…) call in package mtproto")
+	// Invoke builds the request once from nextMsgSeq(true) and hands the same value to every
+	// rpc.Do (the bad-salt retry re-sends the same message, it does not mint a new one)
+	reqWrites, doCalls, doWithReq := 0, 0, 0
+	if fd := f.FuncDecl("mtproto", "Conn.Invoke"); fd != nil {
+		ast.Inspect(fd.Body, func(n ast.Node) bool {
+			switch x := n.(type) {
+			case *ast.AssignStmt:
+				for _, l := range x.Lhs {
+					if s := f.Src(l); s == "req" || strings.HasPrefix(s, "req.") {
+						reqWrites++
+					}
+				}
+			case *ast.IncDecStmt:
+				if strings.HasPrefix(f.Src(x.X), "req.") {
+					reqWrites++
+				}
+			case *ast.CallExpr:
+				if f.Src(x.Fun) == "c.rpc.Do" {
+					doCalls++
+					if len(x.Args) == 2 && f.Src(x.Args[1]) == "req" {
+						doWithReq++
+					}
+				}
+			}
+			return true
+		})
+	}
+	f.Nat("invokeRequestWrites", reqWrites, "assignments to req / req.<field> in Conn.Invoke (1 = the initial `req := rpc.Request{…}`)")
+	f.Bool("invokeAlwaysSendsSameRequest", doCalls > 0 && doCalls == doWithReq, "every c.rpc.Do call of Conn.Invoke passes `req`")
 	passes := false
 	if fd := f.FuncDecl("mtproto", "Conn.write"); fd != nil {
 		ast.Inspect(fd.Body, func(n ast.Node) bool {
@@ -650,6 +679,9 @@ func runWire(seed uint64, workers, per, compress int) (frames []wireFrame, kinds
 		}
 	}
 	sessionTold := false
+	badSalted := map[int64]int{}
+	nBadSalt := 0
+	rr := r.Fork()
 	react := func(w wireFrame) {
 		if session.Load() == 0 {
 			session.Store(w.session)
@@ -662,6 +694,15 @@ func runWire(seed uint64, workers, per, compress int) (frames []wireFrame, kinds
 		case mt.PingDelayDisconnectRequestTypeID:
 			serverSend(proto.MessageServerResponse, false, encodeTL(&mt.Pong{MsgID: w.msgID, PingID: w.pingID}))
 		case mt.RPCDropAnswerRequestTypeID:
+			// some requests are first rejected with bad_server_salt: the client must send the SAME
+			// message again (same msg_id, same seq_no), which then gets its result
+			badSalted[w.msgID]++
+			if badSalted[w.msgID] == 1 && rr.Chance(35) && nBadSalt < 64 {
+				nBadSalt++
+				kinds["(bad_server_salt sent)"]++
+				serverSend(proto.MessageFromServer, false, encodeTL(&mt.BadServerSalt{BadMsgID: w.msgID, BadMsgSeqno: int(w.seqNo), ErrorCode: 48, NewServerSalt: int64(rr.U64())}))
+				break
+			}
 			serverSend(proto.MessageServerResponse, true, encodeTL(&proto.Result{RequestMessageID: w.msgID, Result: encodeTL(&mt.MsgsAck{MsgIDs: []int64{1}})}))
 		case mt.GetFutureSaltsRequestTypeID:
 			serverSend(proto.MessageServerResponse, true, encodeTL(&mt.FutureSalts{ReqMsgID: w.msgID, Now: int(time.Now().Unix())}))
